@@ -46,7 +46,7 @@ MIN_HITS = {
         'mon:mime': 3000, 'mon:domain': 4000, 'mon:cluster': 2000, 'mon:geom': 2000, 'mon:algo': 30, 'algo-all-clients-empty': 12,
         'fully-padded-batch': 150, 'arbitrary-mask': 100, 'garbage-padding': 200, 'empty-client': 30, 'empty-domain': 400,
         'via-model': 300, 'reg:with-centre': 300, 'reg:none': 150, 'geometry:hand-built': 100, 'algo:mime': 2,
-        'algo:mime_lite': 2, 'algo:agnostic_fed_avg': 2, 'algo:hyp_cluster': 2,
+        'algo:mime_lite': 2, 'algo:agnostic_fed_avg': 2, 'algo:hyp_cluster': 2, 'mon:eager': 1000, 'hit:eager-repeat-avgloss': 300,
     },
     'thorough': {
         'mon:grad': 15000, 'mon:avgloss': 25000, 'mon:regonce': 25000, 'mon:empty': 15000, 'mon:evaluator': 20000,
@@ -54,6 +54,7 @@ MIN_HITS = {
         'fully-padded-batch': 1500, 'arbitrary-mask': 1000, 'garbage-padding': 2000, 'empty-client': 300,
         'empty-domain': 4000, 'via-model': 3000, 'reg:with-centre': 3000, 'reg:none': 1500, 'geometry:hand-built': 1000,
         'algo:mime': 25, 'algo:mime_lite': 25, 'algo:agnostic_fed_avg': 25, 'algo:hyp_cluster': 25,
+        'mon:eager': 10000, 'hit:eager-repeat-avgloss': 3000,
     },
 }
 TECHNIQUE = ('runtime monitoring: float64 closed-form gradients / losses / per-domain sums on every execution + differential '
@@ -725,6 +726,40 @@ def dataset_case(ctx, mods, cfgs, MK, i, rng):
     vals = [o['cl'][c] for _, o in per_geom if c < len(o['cl']) and len(o['cl'][c]) == 2]
     ctx.check(spread_ok(vals, max(exps[c]['avg_loss_scale'], exps2[c]['avg_loss_scale'])), 'geom/cluster-loss',
               'HypCluster cluster losses change with the maximization batch geometry', {**w_, 'values': vals})
+
+  # ---- eager mode (jax.disable_jit): the same MATERIALISED batches evaluated repeatedly. Without jit the library code sees the
+  # caller's own dict objects, so anything it does to a batch in place (dropping / rewriting the mask) shows on the next use.
+  if i % 3 == 0:
+    for geom in (hand, geoms[0]):
+      gdesc = {k: v for k, v in geom.items() if k != '_batches'}
+      gw = {**wit, 'geometry': gdesc, 'mode': 'jax.disable_jit, same batch objects evaluated repeatedly'}
+      held = [batches_for(geom, c) for c in range(n_clients)]
+      before = [[(sorted(b), digest(*[np.asarray(b[k]) for k in sorted(b)])) for b in bts] for bts in held]
+      with jax.disable_jit():
+        for rep in range(2):
+          for c in range(n_clients):
+            r = ctx.call('evaluate_average_loss[eager]', models.evaluate_average_loss, jparams, held[c], keys[c], cfg.loss, cfg.reg,
+                         witness={**gw, 'client': c, 'repetition': rep})
+            if r.ok:
+              v = float(r.value)
+              ctx.count('hit:eager-repeat-avgloss')
+              ctx.check(within(v, exps[c]['avg_loss'], exps[c]['avg_loss_scale']), 'eager/avgloss-vs-closed-form',
+                        'evaluate_average_loss without jit, on batches that were already evaluated once, differs from mean loss + '
+                        'regularizer (once)', {**gw, 'client': c, 'n': sizes[c], 'repetition': rep, 'observed': v,
+                                               'expected': exps[c]['avg_loss']})
+          clients = [(ids[c], held[c], keys[c]) for c in range(n_clients)]
+          r = ctx.call('mime.create_grads_for_each_client[eager]', lambda: dict(cfg.mime_grads(jparams, clients)), witness=gw)
+          if r.ok and set(r.value) == set(ids):
+            for c in range(n_clients):
+              gsum, num = to64(r.value[ids[c]][0]), float(r.value[ids[c]][1])
+              w_ = {**gw, 'client': c, 'n': sizes[c], 'repetition': rep, 'observed_sum': gsum, 'observed_num': num}
+              ctx.check(num == sizes[c], 'eager/mime-num', f'Mime pass without jit counted {num} examples, client has {sizes[c]}', w_)
+              ctx.check(tree_within(gsum, exps[c]['mime_sum'], exps[c]['mime_sum_scale']), 'eager/mime-grads-sum',
+                        'Mime pass without jit on already-used batches: sum of grads*num differs from the closed form', w_)
+      after = [[(sorted(b), digest(*[np.asarray(b[k]) for k in sorted(b)])) for b in bts] for bts in held]
+      ctx.check(before == after, 'eager/batches-mutated',
+                'evaluating padded batches (no jit) changed the caller\'s batch dicts (keys or contents)',
+                {**gw, 'keys_before': [[k for k, _ in bts] for bts in before], 'keys_after': [[k for k, _ in bts] for bts in after]})
 
   klass = cfg.classes() + [f'clients={n_clients}']
   if any(s == 0 for s in sizes):
